@@ -87,13 +87,14 @@ def s2_programs(task):
                 k = L.const('K', hex(task['base'] + d), task['base'] + d)
                 pad = [progs.I('addi', rd=8, rs1=8, imm=1)] * n
                 for s in progs.LABELARITH:
-                    yield [k] + pad + [s[1]('K'), L.align(4), progs.I('add', rd=5, rs1=6, rs2=7)]
+                    yield [progs.ALIAS_DEF, k] + pad + [s[1]('K'), L.align(4), progs.I('add', rd=5, rs1=6, rs2=7)]
         return
     sym = {s[0]: s for s in progs.LABELARITH}[task['ref']]
+    alias = (progs.ALIAS_DEF,) if task['ref'].endswith('Al') else ()
     for gapn in task['gaps']:
         for bname, between in BETWEEN.items():
             for pre in ((), (progs.I('addi', rd=8, rs1=8, imm=1), L.li(9, 1))):
-                yield progs.span_program(sym[1], task['dir'], between, gapn, pre=pre)
+                yield progs.span_program(sym[1], task['dir'], between, gapn, pre=alias + pre)
 
 
 def describe(tier):
